@@ -12,7 +12,7 @@ EXPLANATION = (
     'each name); R14.b nothing else constructs an HttpRequest from a Request and both APIs call that one conversion; R14.c each '
     'endpoint emits exactly one effect, outside any loop; R14.d every builder method of the command API and of the capability '
     'API resolves to the same Request/http_types callees; R14.e every mutating method of crux_http::Request forwards to exactly the same-named '
-    'http_types method and changes nothing else. R14.h every builder setter of both APIs changes the request through its mutator on every non-error path, with a value computed from its argument (an argument is never skipped because it is empty or equal to a default). R14.j the argument of each body_json / body_form / body_string / body_bytes setter (Request and both builders) is consumed by the tabled http_types encoder of that format and by nothing else. R14.i crux_http never chooses a media type itself: no Mime::sniff / from_extension / Body::set_mime anywhere in the crate (positive control in the fixtures), set_content_type only from the content_type(..) setters. URL, query and body encoding inside url/http_types is trusted.')
+    'http_types method and changes nothing else. R14.h every builder setter of both APIs changes the request through its mutator on every non-error path, with a value computed from its argument (an argument is never skipped because it is empty or equal to a default). R14.j the argument of each body_json / body_form / body_string / body_bytes setter (Request and both builders) is consumed by the tabled http_types encoder of that format and by nothing else. R14.i crux_http never chooses a media type itself: no Mime::sniff / from_extension / Body::set_mime anywhere in the crate (positive control in the fixtures), set_content_type only from the content_type(..) setters. URL, query and body encoding inside url/http_types is trusted. R14.e also requires the forwarding call on every (non-error) path of the method.')
 
 HT = 'http_types_red_badger_temporary_fork'
 SIBLINGS = ['header', 'content_type', 'body', 'body_json', 'body_string', 'body_bytes', 'body_form', 'query', 'middleware']
